@@ -120,6 +120,11 @@ func runShard(c *vrun.Ctx, exe string, sh *shard) (*childOutcome, error) {
 		if ee, ok := err.(*exec.ExitError); ok && ee.ExitCode() == 3 {
 			return nil, fmt.Errorf("replay child (shard %d): %s", sh.id, tail)
 		}
+		// Only a fatal error of the Go runtime in the child is evidence about the decoders; a
+		// child killed from outside (memory pressure of the machine, a signal) is not.
+		if !strings.Contains(stderr.String(), "fatal error:") {
+			return nil, fmt.Errorf("replay child (shard %d) was terminated without a runtime error (%v): %s", sh.id, err, tail)
+		}
 		// the process died: which case was running?
 		pb, _ := os.ReadFile(progPath)
 		lines := strings.Split(strings.TrimSpace(string(pb)), "\n")
@@ -243,6 +248,16 @@ func Run(c *vrun.Ctx) error {
 	}
 	if root == nil {
 		return fmt.Errorf("no root state emitted")
+	}
+	// both actions of the specification were taken: Group made the group states, Pick the cases
+	groups := 0
+	for i := range cases {
+		if cases[i].kind == "group" {
+			groups++
+		}
+	}
+	if groups == 0 || len(list) == 0 {
+		return fmt.Errorf("WireCases.tla: actions never taken (group states %d, case states %d)", groups, len(list))
 	}
 	partial := os.Getenv("VERIF_WIRE_ONLY") != "" || replayID != ""
 	if replayID != "" {
